@@ -1327,8 +1327,37 @@ func (g *Gen) exportAndReimport() {
 }
 
 func scnGenesis(g *Gen, budget int, arg string) {
+	first := true
 	for g.nOps < budget {
 		g.config()
+		if first {
+			first = false
+			// the default genesis (what a new chain starts from before its operators edit it): what it is, that it
+			// validates, what a chain initialised from it looks like and answers, and that it survives export + import
+			g.emit(Op{Kind: "genesis-default", KV: newKV()})
+			def := genSpec{burnPaused: "0", sendPaused: "0", maxBody: "-", nextNonce: "-", threshold: "-"}
+			g.emit(Op{Kind: "genesis-validate", KV: def.kv()})
+			g.emit(Op{Kind: "genesis-init", KV: def.kv()})
+			g.dump()
+			g.emit(Op{Kind: "genesis-export", KV: newKV()})
+			for _, q := range []string{"Roles", "SignatureThreshold", "MaxMessageBodySize", "NextAvailableNonce", "BurningAndMintingPaused", "SendingAndReceivingMessagesPaused"} {
+				g.q(q)
+			}
+			// nobody holds a role: every privileged action fails for every real account; user flows work as far as the
+			// (empty) configuration lets them
+			for _, from := range []string{g.acct[0], ""} {
+				g.tx("UpdateOwner", newKV().set("from", hs(from)).set("new", hs(g.acct[1])))
+				g.tx("PauseBurningAndMinting", newKV().set("from", hs(from)))
+				g.tx("EnableAttester", newKV().set("from", hs(from)).set("attester", hs(g.pubHex[0])))
+				g.tx("UpdateSignatureThreshold", newKV().set("from", hs(from)).set("amount", "2"))
+				g.tx("LinkTokenPair", newKV().set("from", hs(from)).set("domain", "0").set("token", hx(token(0))).set("localToken", hs(mintDenom)))
+			}
+			g.validFlow(0)
+			g.validFlow(2)
+			g.validFlow(5)
+			g.exportAndReimport()
+			g.config()
+		}
 		sp := g.randomGenesis()
 		v := g.emit(Op{Kind: "genesis-validate", KV: sp.kv()})
 		if g.chance(0.2) || strings.HasPrefix(v, "out=ok") {
